@@ -8,7 +8,7 @@ from .common import Spec, Claims
 PROPERTY = "C10"
 BOUNDS = ("start and step symbolic over [-2^40, 2^40] (covers 0, 1, 2^32-1, 2^32 and negatives); previous sequence numbers "
           "symbolic over 0..2^32-1 (0 = none); ACL shapes: every sequence of <=4 (quick) / <=6 (thorough) body lines over "
-          "{heading remark, plain remark, ACE} x group_by in {none, '= '} (all nestings group() can produce), both platforms; "
+          "{heading remark, plain remark, ACE} x group_by in {none, '= '} (all nestings group() can produce) + 9 mixed nestings built through the items setter (groups followed by plain items), both platforms; "
           "address groups of 1..4 members on both platforms.")
 ASSUMPTIONS = ["ACE/remark bodies are fixed texts; only numbers are symbolic"]
 
@@ -94,6 +94,56 @@ def h_acl(ctx):
     return None
 
 
+NESTED = [[[2], 1], [1, [3], 1, 1], [[1], 1], [[2], [2]], [1, [2]], [[2], 1, [1]], [[3], 1, 1], [1, 1, [2], 1], [[2], [1], 1]]
+
+
+def h_nested(ctx):
+    """any nesting of non-empty groups and single items (built through the items setter, not only by group_by)"""
+    from cisco_acl import Acl, Ace, AceGroup
+    platform = ctx.pick("platform", ["ios", "nxos"])
+    shape = ctx.pick("shape", NESTED)
+    items, n = [], 0
+    for part in shape:
+        if type(part) is list:
+            lines = []
+            for _ in range(part[0]):
+                n += 1
+                lines.append(f"permit tcp any host 10.0.0.{n} eq {n}")
+            items.append(AceGroup("\n".join(lines), platform=platform, port_nr=True))
+        else:
+            n += 1
+            items.append(Ace(f"deny udp any host 10.0.1.{n} eq {n}", platform=platform, port_nr=True))
+    acl = Acl("ip access-list extended A" if platform == "ios" else "ip access-list A", platform=platform, port_nr=True)
+    acl.items = items
+    before = [_seq_of(l)[1] for l in _body(acl.line)]
+    start = ctx.fresh("start", -LIM, LIM)
+    step = ctx.fresh("step", -LIM, LIM)
+    last = start + (n - 1) * step
+    must_raise = Or_(V(start) < 0, V(start) > SEQ_MAX, And_(V(start) > 0, V(step) < 1),
+                     And_(V(start) > 0, V(last) > SEQ_MAX))
+    try:
+        ret = acl.resequence(start, step)
+    except ValueError:
+        ctx.reach("raised")
+        ctx.observe("outcome", "ValueError")
+        ctx.claim("raise-only-when-documented", Not_(must_raise))
+        return None
+    ctx.reach("returned")
+    ctx.observe("ret", ret)
+    ctx.observe("line", acl.line)
+    cl = Claims(ctx)
+    cl("must-raise", must_raise)
+    after = [_seq_of(l) for l in _body(acl.line)]
+    cl("line-count", len(after) != n)
+    for i, (seq, rest) in enumerate(after):
+        cl(f"number[{i}]", V(seq) != V(If0(start, start + i * step)))
+        cl(f"rest[{i}]", Not_(rest == before[i]) if i < len(before) else True)
+        cl(f"max[{i}]", V(seq) > SEQ_MAX)
+    cl("returns-last", V(ret) != V(If0(start, last)))
+    cl.done()
+    return None
+
+
 def If0(start, value):
     """value if start > 0 else 0 (start == 0 removes all numbers)"""
     from symx.core import If_
@@ -150,6 +200,8 @@ def specs(tier, seed, concrete=False):
     return [
         Spec("acl", h_acl, [{"shape": s, "group_by": g} for s in shapes for g in ("", "= ")],
              goals=["raised", "returned"], describe="Acl.resequence(start, step) through nested AceGroups"),
+        Spec("nested", h_nested, [{"platform": p, "shape": sh} for p in ("ios", "nxos") for sh in NESTED], goals=["raised", "returned"],
+             describe="mixed nesting built through the items setter: groups followed by plain items etc."),
         Spec("addrgroup", h_addrgroup, [{"platform": p, "n": n} for p in ("ios", "nxos") for n in (1, 2, 3, 4)],
              goals=["raised", "returned"], describe="AddrGroup.resequence(start, step)"),
     ]
